@@ -22,6 +22,10 @@ pub struct Msg {
     pub body_seed: u64,
     pub shuffle: u64,
     pub with_extension: bool,
+    /// the decoder is also fed through a stream that delivers the bytes in pieces ending at
+    /// these offsets (mod length); a 0 means byte by byte over the first 64 bytes
+    #[serde(default)]
+    pub cuts: Vec<u32>,
 }
 
 impl Msg {
@@ -124,9 +128,10 @@ pub fn msg(max_body: u32) -> BoxedStrategy<Msg> {
         any::<u64>(),
         any::<u64>(),
         any::<bool>(),
+        prop_oneof![1 => Just(Vec::new()), 2 => prop::collection::vec(prop_oneof![2 => 0u32..20, 1 => 0u32..200_000], 1..5)],
     )
         .prop_map(
-            |(is_request, route, status_idx, headers, body_len, body_seed, shuffle, with_extension)| Msg {
+            |(is_request, route, status_idx, headers, body_len, body_seed, shuffle, with_extension, cuts)| Msg {
                 is_request,
                 route,
                 status_idx,
@@ -135,6 +140,7 @@ pub fn msg(max_body: u32) -> BoxedStrategy<Msg> {
                 body_seed,
                 shuffle,
                 with_extension,
+                cuts,
             },
         )
         .boxed()
@@ -158,6 +164,51 @@ pub fn impl_decode(cfg: &Config, is_request: bool, bytes: &[u8]) -> Result<Resul
             None => Err("pending"),
             Some(r) => Ok(r.map(Decoded::Resp).map_err(|e| e.to_string())),
         }
+    }
+}
+
+/// An in-memory stream that hands its bytes out in pieces ending at the given offsets and is
+/// not ready (once, waking itself) between two pieces, the way a network stream behaves.
+pub struct Chunked<'a> {
+    data: &'a [u8],
+    pos: usize,
+    cuts: Vec<usize>,
+    pause: bool,
+}
+impl<'a> Chunked<'a> {
+    pub fn new(data: &'a [u8], cuts: &[u32]) -> Self {
+        let mut c: Vec<usize> = Vec::new();
+        for x in cuts {
+            if *x == 0 { c.extend(1..=64.min(data.len())); } else { c.push(*x as usize % (data.len() + 1)); }
+        }
+        c.sort_unstable();
+        c.dedup();
+        Chunked { data, pos: 0, cuts: c, pause: false }
+    }
+}
+impl tokio::io::AsyncRead for Chunked<'_> {
+    fn poll_read(mut self: std::pin::Pin<&mut Self>, cx: &mut std::task::Context<'_>, buf: &mut tokio::io::ReadBuf<'_>) -> std::task::Poll<std::io::Result<()>> {
+        if self.pause {
+            self.pause = false;
+            cx.waker().wake_by_ref();
+            return std::task::Poll::Pending;
+        }
+        let end = self.cuts.iter().copied().find(|c| *c > self.pos).unwrap_or(self.data.len());
+        let n = (end - self.pos).min(buf.remaining());
+        buf.put_slice(&self.data[self.pos..self.pos + n]);
+        self.pos += n;
+        if self.pos == end && end < self.data.len() { self.pause = true; }
+        std::task::Poll::Ready(Ok(()))
+    }
+}
+
+/// The implementation's decoder fed through [`Chunked`].
+pub fn impl_decode_chunked(cfg: &Config, is_request: bool, bytes: &[u8], cuts: &[u32]) -> Result<Decoded, String> {
+    let r = Chunked::new(bytes, cuts);
+    if is_request {
+        futures::executor::block_on(iw::read_request(cfg, r)).map(Decoded::Req).map_err(|e| e.to_string())
+    } else {
+        futures::executor::block_on(iw::read_response(cfg, r)).map(Decoded::Resp).map_err(|e| e.to_string())
     }
 }
 
@@ -315,6 +366,22 @@ pub fn check_roundtrip(m: &Msg, obs: &mut Obs) -> Result<(), Fail> {
             }
         }
     }
+    // (1b) the same bytes delivered in pieces decode to the same message
+    if !m.cuts.is_empty() {
+        let b = m.ref_bytes();
+        match impl_decode_chunked(&cfg, m.is_request, &b, &m.cuts) {
+            Err(e) => vfail!("c07:rejects-valid-when-fragmented", "a valid message delivered in pieces ending at offsets {:?} (mod {}) was rejected: {e}", m.cuts, b.len() + 1),
+            Ok(Decoded::Req(d)) => {
+                let want = rw::RefRequest { version: 1, route: m.route.clone(), headers: m.sorted_headers(), body: body.to_vec() };
+                if let Err(e) = same_as_ref_request(&d, &want) { vfail!("c07:roundtrip", "fragmented delivery lost information: {e}"); }
+            }
+            Ok(Decoded::Resp(d)) => {
+                let want = rw::RefResponse { version: 1, status: m.status(), headers: m.sorted_headers(), body: body.to_vec() };
+                if let Err(e) = same_as_ref_response(&d, &want) { vfail!("c07:roundtrip", "fragmented delivery lost information: {e}"); }
+            }
+        }
+        obs.label("delivered-in-pieces");
+    }
     obs.label(if m.is_request { "request" } else { "response" });
     if !m.headers.is_empty() && m.body_len > 0 {
         obs.nontrivial(m);
@@ -330,7 +397,7 @@ impl Part for RoundTrip {
     type Case = Msg;
     fn name(&self) -> &'static str { "roundtrip" }
     fn rule(&self) -> &'static str {
-        "generated requests/responses (any String route, 0-16 headers of arbitrary unicode, body 0-128KiB, extensions set): impl-encode->layout check by hand-written decoder->impl-decode, and ref-encode with shuffled header order->impl-decode; non-trivial = >=1 header and non-empty body; distinct by full message"
+        "generated requests/responses (any String route, 0-16 headers of arbitrary unicode, body 0-128KiB, extensions set): impl-encode->layout check by hand-written decoder->impl-decode, ref-encode with shuffled header order->impl-decode, and (2 of 3 cases) the same bytes delivered through a stream that hands them out in 2-5 generated pieces or byte by byte (cuts inside the preamble and the length prefixes included); non-trivial = >=1 header and non-empty body; distinct by full message"
     }
     fn strategy(&self, _t: Tier) -> BoxedStrategy<Msg> { msg(128 * 1024) }
     fn run(&self, m: &Msg, obs: &mut Obs) -> Result<(), Fail> { check_roundtrip(m, obs) }
@@ -488,7 +555,7 @@ pub fn enumerations(property: &'static str, known: &KnownFindings) -> PartReport
             rep.violation = Some(Violation { part: "enumerations".into(), key: key.into(), msg, case });
         }
     };
-    let base = Msg { is_request: true, route: "/a".into(), status_idx: 0, headers: vec![("k".into(), "v".into())], body_len: 3, body_seed: 1, shuffle: 0, with_extension: false };
+    let base = Msg { is_request: true, route: "/a".into(), status_idx: 0, headers: vec![("k".into(), "v".into())], body_len: 3, body_seed: 1, shuffle: 0, with_extension: false, cuts: vec![] };
     // versions
     for v in 0..=u16::MAX {
         for is_request in [true, false] {
@@ -540,7 +607,7 @@ pub fn enumerations(property: &'static str, known: &KnownFindings) -> PartReport
     }
     // golden vectors
     let gr = hex::decode(rw::GOLDEN_REQUEST).unwrap();
-    let gm = Msg { is_request: true, route: "/ab".into(), status_idx: 0, headers: vec![("k".into(), "vv".into())], body_len: 0, body_seed: 0, shuffle: 0, with_extension: false };
+    let gm = Msg { is_request: true, route: "/ab".into(), status_idx: 0, headers: vec![("k".into(), "vv".into())], body_len: 0, body_seed: 0, shuffle: 0, with_extension: false, cuts: vec![] };
     {
         let mut req = gm.to_request();
         *req.body_mut() = Bytes::from_static(&[1, 2, 3]);
